@@ -25,7 +25,7 @@ pub struct SpecialCase {
 
 impl SpecialCase {
     pub fn is_special(f: &str) -> bool {
-        matches!(f, "Q2" | "Q2dense" | "Q4" | "Q8" | "QB")
+        matches!(f, "Q2" | "Q2dense" | "Q4" | "Q8" | "QB" | "QM")
     }
     pub fn generate(family: &str, seed: u64, index: u64) -> Self {
         let dense = family == "Q2dense";
@@ -59,6 +59,7 @@ impl SpecialCase {
             "Q2" | "Q2dense" => q2(self, ctx, &mut rng, &mut out),
             "Q4" => q4(self, ctx, &mut rng, &mut out),
             "Q8" => q8(&mut rng, &mut out),
+            "QM" => qm(ctx, &mut rng, &mut out),
             _ => qb(ctx, &mut rng, &mut out),
         }
         out.violations.retain(|v| props.has(Props::id(v.prop)));
@@ -1011,5 +1012,103 @@ fn qb(ctx: &Ctx, rng: &mut Rng, out: &mut RunOut) {
             format!("{cfg:?}: {desc}: LLFree::new panicked: {msg} at {loc}"),
         )),
         Err(_) => {}
+    }
+}
+
+// ------------------------------------------------------------------------------------------
+// QM: metadata size sweep (C18): many more trees than the other families use, frame counts and
+// slot counts around the rounding boundaries of the three size computations; every buffer is
+// exactly as large as requested and flush against a guard page, and the first / last / a random
+// tree are touched through every kind of call.
+
+fn qm(ctx: &Ctx, rng: &mut Rng, out: &mut RunOut) {
+    // tree counts around multiples of 16 (one cache line of tree entries) up to 70 trees
+    let t = match rng.below(4) {
+        0 => *rng.pick(&[15usize, 16, 17, 31, 32, 33, 47, 48, 49, 63, 64, 65]),
+        1 => rng.range(1, 8),
+        _ => rng.range(1, 70),
+    };
+    let rem = match rng.below(5) {
+        0 => 0,
+        1 => rng.range(1, 3),
+        2 => rng.range(1, TREE_FRAMES / HUGE_FRAMES) * HUGE_FRAMES - if rng.chance(1, 2) { 0 } else { rng.range(1, 65) },
+        3 => TREE_FRAMES - rng.range(1, 65),
+        _ => rng.range(1, TREE_FRAMES - 1),
+    };
+    let frames = (t * TREE_FRAMES + rem).max(1) - if rem == 0 && rng.chance(1, 8) { TREE_FRAMES - 1 } else { 0 };
+    let kind = *rng.pick(&[ClassKind::Simple, ClassKind::Movable, ClassKind::Zeroed]);
+    let cfg = Config {
+        frames,
+        alloc_all: rng.chance(1, 2),
+        kind,
+        slots: (0..kind.classes()).map(|_| *rng.pick(&[0usize, 1, 1, 2, 3, 4, 7, 8])).collect(),
+    };
+    let mut h = Hasher::default();
+    h.add(frames as u64);
+    h.add(cfg.alloc_all as u64);
+    h.add_bytes(format!("{:?}{kind:?}", cfg.slots).as_bytes());
+    out.hash = h.finish();
+    out.nontrivial = true;
+    out.sample = J::obj().set("family", "QM").set("config", cfg.to_json()).set("schedule", "single-thread");
+    bump(out, "metadata_sweep_configs", 1);
+    let at_end = rng.chance(2, 3);
+    let bufs = unsafe { ctx.arenas.bufs(&cfg, at_end, rng.below(256) as u8) };
+    let alloc = match create(&cfg, cfg.init(), bufs) {
+        Ok(Ok(a)) => a,
+        Ok(Err(e)) => {
+            out.violations.push(Violation::new("C18", "init-error", format!("{cfg:?}: new returned {e:?}")));
+            return;
+        }
+        Err(Outcome::Panic { msg, loc }) => {
+            out.violations.push(Violation::new("C18", format!("init-{}", panic_signature(&msg, &loc)), format!("{cfg:?}: new panicked: {msg} at {loc}")));
+            return;
+        }
+        Err(_) => return,
+    };
+    let trees = cfg.trees();
+    let mut calls = 0u64;
+    let r = guarded(|| {
+        for tree in [0, trees - 1, rng.below(trees)] {
+            let base = tree * TREE_FRAMES;
+            let len = frames.saturating_sub(base).min(TREE_FRAMES);
+            for _ in 0..3 {
+                let class = rng.below(cfg.slots.len()) as u8;
+                let n = cfg.slots[class as usize];
+                let slot = if n == 0 || rng.chance(1, 3) { None } else { Some(rng.below(n)) };
+                let order = *rng.pick(&[0usize, 0, 3, 6, HUGE_ORDER]);
+                let l = 1usize << order;
+                let f = if len >= l { base + rng.below(len / l) * l } else { base };
+                let last = base + len - 1;
+                let _ = alloc.stats_at(FrameId(last), 0);
+                let _ = alloc.stats_at(FrameId(last), HUGE_ORDER);
+                let _ = alloc.stats_at(FrameId(base), TREE_ORDER);
+                if cfg.alloc_all {
+                    let _ = alloc.put(FrameId(f), request(order, class, slot));
+                    let _ = alloc.put(FrameId(last), request(0, class, slot));
+                }
+                if let Ok((g, _)) = alloc.get(Some(FrameId(f)), request(order, class, slot)) {
+                    let _ = alloc.put(g, request(order, class, None));
+                }
+                if let Ok((g, _)) = alloc.get(Some(FrameId(last)), request(0, class, slot)) {
+                    let _ = alloc.put(g, request(0, class, slot));
+                }
+                if let Ok((g, _)) = alloc.get(None, request(order, class, slot)) {
+                    let _ = alloc.put(g, request(order, class, slot));
+                }
+                let _ = alloc.change_tree(
+                    llfree::TreeMatch { id: Some(llfree::TreeId(tree)), class: None, free: 0 },
+                    llfree::TreeChange { class: Some(llfree::Class(class)), operation: None },
+                );
+                calls += 10;
+            }
+        }
+        alloc.drain();
+        let _ = alloc.stats();
+        let _ = alloc.tree_stats();
+        alloc.validate();
+    });
+    bump(out, "calls", calls);
+    if let Err(Outcome::Panic { msg, loc }) = r {
+        out.foreign = Some(Violation::new("C09", panic_signature(&msg, &loc), format!("{cfg:?}: {msg} at {loc}")));
     }
 }
